@@ -376,7 +376,8 @@ def _fully(repo, col):
     fi = repo.func(CF, "fully_connect")
     ex = idx.expander(repo, fi)
     c = _append_call(ex)
-    pre, post = ex.term(c.args[0]), ex.term(c.args[1])
+    # (module-level helpers that only compute a value -- `first_comp_nodes(view)` -- are looked through)
+    pre, post = (idx.inline(repo, fi, ex.term(c.args[0]), value_only=True, keep=("sample_comp",)), idx.inline(repo, fi, ex.term(c.args[1]), value_only=True, keep=("sample_comp",)))
     pre_param, post_param = fi.params[0], fi.params[1]
     # pre rows: first compartment of each pre cell, repeated
     rep = T.find(pre, lambda x: x.op == "mcall" and x.name == "repeat")
@@ -490,6 +491,9 @@ def _case_lengths_t(t: T, counts=frozenset()):
             return 0
         if branch.op == "mcall" and branch.name in STACK:
             return n if n > 0 else "raises"
+        # the list of per-connection samples itself (one entry per drawn connection): `.loc[list]` looks up len(list) rows
+        if branch.op in ("listacc", "comp") or (branch.op == "phi" and all(a_.op in ("listacc", "comp", "list", "undef", "carried") for a_ in branch.args)):
+            return n
         return None
 
     def holds(cnd, n):
@@ -626,7 +630,7 @@ def _matrix(repo, col):
     ex = idx.expander(repo, fi)
     c = _append_call(ex)
     pre_param, post_param, _syn, mat = fi.params[:4]
-    pre, post = ex.term(c.args[0]), ex.term(c.args[1])
+    pre, post = (idx.inline(repo, fi, ex.term(c.args[0]), value_only=True, keep=("sample_comp",)), idx.inline(repo, fi, ex.term(c.args[1]), value_only=True, keep=("sample_comp",)))
     # assertions
     asserts = [ex.term(n.test) for n in walk_no_nested(fi.node) if isinstance(n, ast.Assert)]
     about_mat = lambda t_: T.find(t_, lambda x: x.op == "param" and x.name == mat) is not None
